@@ -96,6 +96,9 @@ def lattice_mutation(rng, allow_all6=True):
     r = lambda lo, hi: round(rng.uniform(lo, hi), 4)
     if allow_all6 and w < 0.3:
         return {"how": "all6", "par": lattice_spec(rng, rng.choice(["oblique", "hex", "ortho", "mono"]), post=False)["par"]}
+    if w < 0.42:
+        # re-based in place: setLatBase with the base vectors of another (oblique, rotated) cell
+        return {"how": "setbase", "par": _lattice_spec(rng, "oblique")["par"], "rot": rotation(rng).tolist()}
     if w < 0.55:
         return {"how": "baserot", "rot": rotation(rng).tolist()}
     if w < 0.7:
@@ -120,6 +123,11 @@ def apply_mutation(L, m):
     how = m["how"]
     if how == "all6":
         L.setLatPar(*m["par"])
+        return True
+    if how == "setbase":
+        from diffpy.structure import Lattice
+
+        L.setLatBase(Lattice(*m["par"], baserot=np.array(m["rot"])).base)
         return True
     ang = {"alpha": L.alpha, "beta": L.beta, "gamma": L.gamma}
     if m.get("name") in ang:
@@ -618,6 +626,8 @@ def run(ck):
     import numpy as np
 
     ok, info = ck.lean_obligations("DS.Props.C09")
+    # the lattice attributes enter through LatOK, discharged for the Lattice model (DS.Props.Bridge); that model is tied to lattice.py here
+    tie_ok, tie_info = ck.source_tie("DS.Props.SrcLattice")
     nh = 200 if ck.tier == "quick" else 5000
     maxops = 30 if ck.tier == "quick" else 60
     rng = ck.rng
@@ -697,6 +707,7 @@ def run(ck):
         "asymmetric tensor assignments are outside the quantifier",
     ]
     witness_check(ck)
+    ck.tie_verdict(tie_ok, tie_info, "lattice.py")
     if not ok and not ck.violations:
         ck.fail("lean-build", "Lean obligations of C09 no longer check: %r" % info["failed_modules"],
                 {"kind": "proof-obligation", "theorem": info["failed_modules"], "errors": info["errors"]}, no_failing_input=True)
